@@ -201,11 +201,14 @@ func (g *gen) seqOp(keys []string, withShortExpiry bool) sim.Op {
 		if !withShortExpiry {
 			return g.expiryFar()
 		}
-		switch r.Intn(5) {
+		switch r.Intn(6) {
 		case 0, 1:
 			return 0
 		case 2:
 			return int64(time.Hour)
+		case 3:
+			// "practically never" sentinels, beyond what a Duration can hold
+			return sim.Pick(r, FarExpiry2500, FarExpiry9999, int64(200*365*24*time.Hour))
 		default:
 			return int64(sim.Pick(r, 5*time.Millisecond, 50*time.Millisecond, time.Second, 20*time.Second))
 		}
@@ -286,11 +289,13 @@ func genC06(g *gen, c *sim.Case, tier string) {
 	for i := 0; i < nw; i++ {
 		k := keys[r.Intn(len(keys))]
 		d := int64(0)
-		switch r.Intn(6) {
+		switch r.Intn(7) {
 		case 0:
 			d = 0
 		case 1:
 			d = int64(time.Hour)
+		case 2:
+			d = sim.Pick(r, FarExpiry2500, FarExpiry9999, int64(200*365*24*time.Hour))
 		default:
 			d = int64(sim.Pick(r, 5*time.Millisecond, 50*time.Millisecond, time.Second, 20*time.Second))
 		}
@@ -416,8 +421,10 @@ func genC07(g *gen, c *sim.Case, tier string) {
 			switch r.Intn(8) {
 			case 0:
 				op.E, op.F = 0, true // cancelled before the call
-			case 1, 2:
+			case 1:
 				op.E = int64(1 + r.Intn(12))
+			case 2:
+				op.E = int64(sim.Pick(r, 998, 999)) // cancelled exactly at the next mutation of the key
 			case 3, 4:
 				op.E = 1000 + int64(sim.Pick(r, 10*time.Microsecond, time.Millisecond, 40*time.Millisecond, time.Second))
 			default:
